@@ -26,7 +26,9 @@ KINDS = ["dup-writer-same", "dup-writer-overlap-slice", "dup-writer-parent", "bl
          "op-ilshift-slice-in-ff", "ff-and-comb-same-signal", "self-connect",
          # port-direction / hierarchy rules broken by CONNECTIONS (the target is otherwise undriven: the only defect present)
          "const-to-child-wire", "const-to-child-outport", "const-to-grandchild-inport", "wire-to-child-outport", "read-grandchild-outport",
-         "own-inport-from-own-wire"]
+         "own-inport-from-own-wire",
+         # two update blocks reach one writing @s.func helper (directly or through intermediate helpers)
+         "two-blocks-one-writing-func"]
 
 
 def plan(tier, seed):
@@ -235,6 +237,26 @@ def inject(rng, design, kind):
       newblk(cls, "zz_owb", "comb", [["=", ow, ["c", 1, None]]])
       cls["connects"].insert(rng.randrange(len(cls["connects"]) + 1), [{"path": "zz_oi", "steps": [], "lo": 0, "w": w}, ow])
       return d, {ST}, dict(info, port="zz_oi")
+    if kind == "two-blocks-one-writing-func":
+      w = rng.choice([1, 4, 8])
+      cls["signals"].append({"name": "zz_fw", "kind": "Wire", "type": w, "list": None})
+      tgt = {"path": "zz_fw", "steps": [], "lo": 0, "w": w}
+      wr = [["=", tgt, ["c", 1, None]]]
+      funcs = cls.setdefault("funcs", {})
+      funcs["zz_drive"] = {"stmts": wr, "kind": "comb"}
+      shapes = [rng.choice(["direct", "nested", "nested2"]) for _ in range(2)]
+      for bi_, shp in enumerate(shapes):
+        if shp == "direct":
+          call = "zz_drive"
+        else:
+          call = f"zz_wrap{bi_}"
+          inner = "zz_drive"
+          if shp == "nested2":
+            funcs[f"zz_mid{bi_}"] = {"stmts": [["call", "zz_drive"]], "kind": "comb"}; inner = f"zz_mid{bi_}"
+          funcs[call] = {"stmts": [["call", inner]], "kind": "comb"}
+        b = {"name": f"zz_fb{bi_}", "kind": "comb", "stmts": list(wr), "emit_stmts": [["raw", "s.reset"], ["call", call]]}
+        cls["blocks"].insert(rng.randrange(len(cls["blocks"]) + 1), b)
+      return d, {MW}, dict(info, shapes=shapes)
     if kind in ("op-eq-in-update", "op-ilshift-in-update"):
       blks = [b for b in cls["blocks"] if b["kind"] == "comb" and b["stmts"]]
       if blks:
